@@ -200,13 +200,11 @@ def build_value(spec, torch, OptimizerModule, ctr, fill):
         from distributed_shampoo.utils.shampoo_quantization import QuantizedTensor
 
         ctr[0] += 1
-        q = QuantizedTensor(torch.zeros(2, dtype=torch.int8), BlockInfo(param=torch.zeros(1), composable_block_ids=(0, "block_0")))
+        bi = BlockInfo(param=torch.zeros(1), composable_block_ids=(0, "block_0"))
         if fill:
-            with torch.no_grad():
-                q.quantized_values.fill_(ctr[0] % 100)
-                q.min_value.fill_(float(ctr[0]))
-                q.max_value.add_(float(ctr[0]) + 0.5)
-        return q
+            # the source is built from explicit metadata tensors, the target by the default allocation
+            return QuantizedTensor(torch.full((2,), ctr[0] % 100, dtype=torch.int8), bi, min_value=torch.full((1,), float(ctr[0])), max_value=torch.full((1,), float(ctr[0]) + 0.5))
+        return QuantizedTensor(torch.zeros(2, dtype=torch.int8), bi)
     if k == "E":
         e = OptimizerModule()
         e.names, e.table, e.count = ("a", "b"), {}, 3
